@@ -530,9 +530,13 @@ class ConditionEvaluator(ast.NodeVisitor):
                 active.append(result.condition)
                 if is_and:
                     if result.left_varmap is None:
-                        # Condition returns False
+                        # Condition returns False. Union members that failed
+                        # an earlier, partially matching operand also end up
+                        # in the negative branch.
                         return ConditionReturn(
-                            right_varmap=result.right_varmap,
+                            right_varmap=_unite_with_remaining(
+                                remaining_varmaps, result.right_varmap
+                            ),
                             condition=ConditionList(active),
                         )
                     elif result.right_varmap is None:
@@ -556,9 +560,13 @@ class ConditionEvaluator(ast.NodeVisitor):
                             self.ctx.narrow_variables(result.right_varmap)
                         )
                     elif result.right_varmap is None:
-                        # Condition returns True
+                        # Condition returns True. Union members that matched
+                        # an earlier, partially matching operand also end up
+                        # in the positive branch.
                         return ConditionReturn(
-                            left_varmap=result.left_varmap,
+                            left_varmap=_unite_with_remaining(
+                                remaining_varmaps, result.left_varmap
+                            ),
                             condition=ConditionList(active),
                         )
                     else:
@@ -798,6 +806,14 @@ def can_assign_maybe_exclude_any(
             return left.can_assign(right, ctx)
     else:
         return left.can_assign(right, ctx)
+
+
+def _unite_with_remaining(
+    remaining_varmaps: Sequence[VarMap], varmap: Optional[VarMap]
+) -> Optional[VarMap]:
+    if varmap is None or not remaining_varmaps:
+        return varmap
+    return unite_varmaps([*remaining_varmaps, varmap])
 
 
 def unite_varmaps(varmaps: Sequence[VarMap]) -> Optional[VarMap]:
